@@ -4,6 +4,8 @@ package main
 // item classes TLC exports (spec/Gen_Wire.tla), fed to the dispatching decoders.
 
 import (
+	"bytes"
+	"encoding/json"
 	"fmt"
 	"sort"
 	"strings"
@@ -401,5 +403,132 @@ func init() {
 			}
 		}
 		t.Close(map[string]any{"by_source": bysrc, "skipped": skipped})
+	}
+}
+
+type decodeJSONEv struct {
+	B    int              `json:"b"`
+	I    int              `json:"i"`
+	Op   string           `json:"op"`
+	Src  string           `json:"src"`
+	Doc  JMember          `json:"doc"`
+	Reg  []regEntry       `json:"reg"`
+	Dec  decRes           `json:"dec"`
+	Val  decRes           `json:"val"`
+	Get  map[string]Ret   `json:"get"`
+	CGet []map[string]Ret `json:"cget"`
+	VRet Ret              `json:"vret"`
+	Outs []string         `json:"outs"` // distinct dispatch outcomes over repeated calls (Go map order)
+}
+
+func init() {
+	// C07 (JSON side): documents with the profile member present / absent / null / unknown / other profile's /
+	// under both tags / misspelt, with and without claim deviations, through the dispatching JSON decoders.
+	drivers["json-decode"] = func(a *Args) {
+		d := loadDomains(a.In)
+		registerExtras(a.Reg)
+		reg := currentReg()
+		t := NewTracer(a.Out)
+		cc := Conc{a.Rand()}
+		b := 0
+		emit := func(src string, doc []byte) {
+			tree, ok := parseJSONDoc(doc)
+			if !ok {
+				return
+			}
+			ev := decodeJSONEv{B: b, Op: "DecodeJSON", Src: src, Doc: tree, Reg: reg, Outs: []string{}}
+			c, derr, pan := guardDec(func() (psatoken.IClaims, error) { return psatoken.DecodeClaimsFromJSON(append([]byte{}, doc...)) })
+			ev.Dec = mkDecRes(c, derr, pan)
+			c2, verr, pan2 := guardDec(func() (psatoken.IClaims, error) {
+				return psatoken.DecodeAndValidateClaimsFromJSON(append([]byte{}, doc...))
+			})
+			ev.Val = mkDecRes(c2, verr, pan2)
+			if ev.Dec.OK {
+				ev.Get, ev.VRet, ev.CGet = safeGetters(c), safeValidate(c), compGettersOf(c)
+			} else {
+				ev.Get, ev.VRet, ev.CGet = emptyGet, Ret{OK: false, Cls: []string{}, Val: absent()}, []map[string]Ret{}
+			}
+			seen := map[string]bool{}
+			for k := 0; k < 6; k++ {
+				x, err, p := guardDec(func() (psatoken.IClaims, error) { return psatoken.DecodeClaimsFromJSON(doc) })
+				o := dispatchOutcome(x, err, p)
+				if !seen[o] {
+					seen[o] = true
+					ev.Outs = append(ev.Outs, o)
+				}
+			}
+			t.Emit(ev, true, !ev.Val.OK)
+			b++
+		}
+		variants := []struct {
+			name string
+			edit func(m map[string]any, p string)
+		}{
+			{"as-is", func(m map[string]any, p string) {}},
+			{"absent", func(m map[string]any, p string) { delete(m, jsonNames[p]["profile"]) }},
+			{"null", func(m map[string]any, p string) { m[jsonNames[p]["profile"]] = nil }},
+			{"unknown", func(m map[string]any, p string) { m[jsonNames[p]["profile"]] = "http://UNKNOWN" }},
+			{"other", func(m map[string]any, p string) {
+				m[jsonNames[p]["profile"]] = map[string]string{"P1": psatoken.Profile2Name, "P2": psatoken.Profile1Name}[p]
+			}},
+			{"other-tag", func(m map[string]any, p string) {
+				delete(m, jsonNames[p]["profile"])
+				o := map[string]string{"P1": "P2", "P2": "P1"}[p]
+				m[jsonNames[o]["profile"]] = canonOf[o]
+			}},
+			{"both-tags", func(m map[string]any, p string) {
+				o := map[string]string{"P1": "P2", "P2": "P1"}[p]
+				m[jsonNames[p]["profile"]] = canonOf[p]
+				m[jsonNames[o]["profile"]] = canonOf[o]
+			}},
+			{"both-tags-one-unknown", func(m map[string]any, p string) {
+				o := map[string]string{"P1": "P2", "P2": "P1"}[p]
+				m[jsonNames[p]["profile"]] = canonOf[p]
+				m[jsonNames[o]["profile"]] = "http://UNKNOWN"
+			}},
+			{"misspelt", func(m map[string]any, p string) {
+				m[jsonNames[p]["profile"]] = strings.ToUpper(canonOf[p][:4]) + canonOf[p][4:]
+			}},
+			{"number", func(m map[string]any, p string) { m[jsonNames[p]["profile"]] = 7 }},
+			{"x2", func(m map[string]any, p string) { delete(m, jsonNames[p]["profile"]); m["eat-profile"] = X2Name }},
+			{"empty", func(m map[string]any, p string) { m[jsonNames[p]["profile"]] = "" }},
+		}
+		for _, p := range []string{"P1", "P2"} {
+			for _, kind := range []string{"full", "minimal", "nosw"} {
+				specs := []CSpec{d.base(p, kind)}
+				srcs := []string{"base:" + kind}
+				if kind == "full" {
+					for _, c := range d.Order {
+						for _, al := range d.alts(p, c) {
+							s := d.base(p, kind)
+							s.apply(al)
+							specs = append(specs, s)
+							srcs = append(srcs, "single")
+						}
+					}
+				}
+				for si, s := range specs {
+					var m map[string]any
+					dec := json.NewDecoder(bytes.NewReader(cc.DocJSON(s)))
+					dec.UseNumber()
+					if err := dec.Decode(&m); err != nil {
+						continue
+					}
+					for vi, v := range variants {
+						if srcs[si] == "single" && vi > 2 && (si+vi)%4 != 0 {
+							continue
+						}
+						m2 := map[string]any{}
+						for k, x := range m {
+							m2[k] = x
+						}
+						v.edit(m2, p)
+						doc, _ := json.Marshal(m2)
+						emit(srcs[si]+":"+v.name, doc)
+					}
+				}
+			}
+		}
+		t.Close(nil)
 	}
 }
